@@ -23,12 +23,12 @@ CORR = (" The part not proved is decided by the correspondence check plus the pr
 P = {
  "C01": ("proof", "Props/C01.v, all configurations, populations and schedules of the micro-step model: head = number of claimed values (mod 2^63) in every reachable state; every step leaves the claim log alone or appends exactly the claiming send's value; the single-writer path's loaded head is still current when it stores (rests on the proved writers-count invariant and the control invariant). PARTIAL: 'each stream delivers exactly the log segment from its start position' (slot/tag/cursor invariant I4-I7 of the design) is not proved." + CORR),
  "C02": ("proof", "Props/C02.v: a single claim log that no step of any execution reorders, rewrites or shortens (append-only), whose length is the head counter; the order of accepted values is fixed at the claiming steps; every commit of a consumer moves its stream's cursor from p to exactly p+1 (also on the plain-store paths of single-consumer handles, by the proved sole-consumer invariant), so positions are handed out in order. PARTIAL: delivery along this log per stream is not proved (see C01); producer order, real-time order and per-consumer monotonicity are checked by the oracle." + CORR),
- "C03": ("proof", "Props/C03.v: capacity = least power of two >= max(1, request) for all requests below 2^62-1; exact meaning of the producers' full test and of the scan distance under the no-wrap bound, for all inputs. PARTIAL: the window invariant (head <= cursor + N in every reachable state) is not proved." + CORR),
+ "C03": ("proof", "Props/C03.v: (1) the window invariant, for every configuration, population of handles and interleaving of micro-steps (states in the middle of calls included): no registered stream's cursor is ahead of the head counter and head <= cursor + N for every registered stream (at most N claimed-but-unconsumed values per stream); a sender about to claim (plain store or compare-exchange) claims a position < cursor + N for every registered stream, so the slot of an unconsumed value is never claimed again; a consumer that matched the tag of its position reads a claimed position. Proved by induction over the restricted reachability mreachN = all micro-steps except the publishing compare-exchange of add_stream succeeding after the parent cursor moved (exactly known finding F11, named by the predicate f11_bad); an Example shows that with that one step the statement is false in the model (the F11 witness), so the exclusion is necessary, and a second Example exhibits a covered state with the ring exactly full. (2) capacity = least power of two >= max(1, request) for all requests below 2^62-1; exact meaning of the producers' full test and of the scan distance under the no-wrap bound. PARTIAL: counters are assumed below 2^62 (stated in the theorems: fewer than 2^62 handles ever created and fewer than 2^62 values ever claimed), i.e. the 63-bit wrap-around of positions is not covered; that a slot's payload is not dropped or overwritten while unconsumed additionally needs the slot/tag invariant (C01/C04), which is not proved." + CORR),
  "C07": ("proof", "Props/C07.v: in every reachable state the writers counter that receivers test before reporting the end equals the number of live sender handles, through clones and drops at any moment; a live sender handle keeps it positive; once it is zero no step makes it non-zero again (the end is final). PARTIAL: 'the stream is drained when the end is reported' is not proved." + CORR),
- "C10": ("proof", "Props/C10.v: the allocating step of add_stream initialises the new cursor with the parent's cursor as it is at that step; no step of any agent writes the cursor of a stream still in flight (only its creator knows it), so it is published with exactly that position; a published stream is in the published list as long as its creator or a handle holds it. PARTIAL: gap-free delivery from there on and 'no loss of backpressure' are not proved (for a parent shared with a concurrently receiving sibling this is known finding F11)." + CORR),
+ "C10": ("proof", "Props/C10.v: the allocating step of add_stream initialises the new cursor with the parent's cursor as it is at that step; no step of any agent writes the cursor of a stream still in flight (only its creator knows it), so it is published with exactly that position; a published stream is in the published list as long as its creator or a handle holds it. Backpressure for the new stream: the window invariant of Props/C03.v (head <= cursor + N for every registered stream, new ones included) holds in every execution without the F11 step. PARTIAL: gap-free delivery from there on is not proved (for a parent shared with a concurrently receiving sibling the start position is stale: known finding F11)." + CORR),
  "C16": ("proof", "Props/C16.v (the part of the argument that does not depend on the epoch protocol): stream-list identifiers are allocated fresh, a list is never modified after allocation, the published identifier and every identifier an agent works on are allocated ones, and the list a publishing compare-exchange installs is the list it read plus/minus one stream - so the pointer re-validation of a scan compares identities of unmodified lists. PARTIAL: 'no freed object is ever dereferenced or freed twice' (epoch invariant I10) is not proved; the model flags such accesses and the correspondence compares them with the quarantine allocator of the harness." + CORR),
  "C08": ("proof", "Props/C08.v: adequacy of the wait condition (wait.rs check) for all sequence numbers below 2^62: released when no sender is left, when the awaited position is published, when the slot has moved past it; not released on a never-written slot or an older value while a sender lives. PARTIAL: the pending-notification invariant (no lost wake-up across lock/condvar steps) is not proved; fairness of the OS scheduler cannot be expressed." + CORR),
- "C11": ("proof", "Props/C11.v: the first step of unsubscribe/drop records whether the handle's own decrement found the count at 1; no later step of that call changes the record in any reachable state; the last step reports exactly that record; the compare-exchange that publishes the shortened list installs exactly the current list minus the leaving handle's stream, and at that moment no agent has any weight on that stream. PARTIAL: that senders then stop being limited by it (window invariant) is not proved." + CORR),
+ "C11": ("proof", "Props/C11.v: the first step of unsubscribe/drop records whether the handle's own decrement found the count at 1; no later step of that call changes the record in any reachable state; the last step reports exactly that record; the compare-exchange that publishes the shortened list installs exactly the current list minus the leaving handle's stream, and at that moment no agent has any weight on that stream. The producers' scan and the window invariant (Props/C03.v) quantify over the streams of the current list only, so a removed stream is not consulted by any scan that loads the list after the publishing compare-exchange. PARTIAL: the wake-up of a sender blocked on the removed stream's position is checked by the oracle only." + CORR),
  "C12": ("proof", "Props/C12.v: the mode invariant in every reachable state, for clones/drops/conversions at any moment: writers = number of live sender handles and a sender in single-writer mode is the only live sender; for every stream the consumer count equals the total weight of the agents on it (handles, clones in flight, a stream in flight) and a handle that behaves as the only consumer (single-consumer mode, single-consumer receiver type, or an attempt that found the count at one) is the only agent with weight on its stream. These make the plain stores to the head counter and to the cursors sound (C01/C02 files). PARTIAL: observational equivalence of the modes for delivered values (slot invariant) is not proved." + CORR),
  "C13": ("proof", "Props/C13.v: NO_READER is sticky across every step; try_send tests the signal word it loaded; the test step of a send that loaded the flag returns Disconnected with its own value and claims nothing; in every reachable state whoever is past the test loaded a word without the flag. PARTIAL: that the flag is set when the last receiver's drop returns (stream-registry invariant) is not proved." + CORR),
  "C15": ("proof", "Props/C15.v: in every reachable state a task call (poll, start_send, poll_complete) is never at a program counter of the blocking wait strategies (no condvar wait, no Wait::wait loop inside the call). PARTIAL: NotReady identity and equality with the plain handles are not proved." + CORR),
